@@ -73,6 +73,8 @@ LVtx(r) == [trx |-> [id |-> r.trx.id, iss |-> r.trx.iss, rcv |-> r.trx.rcv, amt 
 
 \* equality of books up to the weight / throughput counters
 Same(a, b) == [a EXCEPT !.wgt = 0, !.thr = 0] = [b EXCEPT !.wgt = 0, !.thr = 0]
+\* the weight / throughput window after an admission
+SameWindow(a, b) == a.wgt = b.wgt /\ a.thr = b.thr
 
 \* what the snapshot says beyond the abstract book: the library's own tip / root sets, the
 \* self-authentication flags and names the driver could not resolve
@@ -136,6 +138,7 @@ EvProposeCommit(ev) ==
                     /\ o.res = ev.res
                     /\ Same(o.b, lb)
                     /\ o.res = "ok" => (Len(ev.new) = 1 /\ LVtx(ev.new[1]) = o.new[1])
+                    /\ o.res = "ok" => SameWindow(o.b, lb)
     IN /\ Adopt(n, ev.st)
        /\ vtx' = IF Len(ev.new) = 1 THEN Append(vtx, LVtx(ev.new[1])) ELSE vtx
        /\ inflight' = [inflight EXCEPT ![n] = @ \ {OpRec("P", t, NoV, 0)}]
@@ -162,7 +165,7 @@ EvDeliverCommit(ev) ==
         v == ev.v
         lb == LBook(ev.st, Ids)
         o == DeliverCommitOutcome(book[n], v, ev.rep)
-        conf == o.res = ev.res /\ Same(o.b, lb)
+        conf == o.res = ev.res /\ Same(o.b, lb) /\ (o.res = "ok" => SameWindow(o.b, lb))
     IN /\ Adopt(n, ev.st)
        /\ inflight' = [inflight EXCEPT ![n] = @ \ {OpRec("D", T(v), v, ev.rep)}]
        /\ obs' = ObsOf(ev, IsStrict(ev.a) => conf)
